@@ -98,6 +98,44 @@ def _open_children(t, z):
             kids.append(O._subst_free(a, pending, z) if pending is not None else a); pending = None
     return own, kids
 
+def _pmatch(p, t, vmap, smap):
+    """syntactic match of a rule pattern ('?v' strings are variables) against a term: collects variable bindings (a variable bound twice must bind
+    alpha-equal subterms) and the map from the pattern's slot names to the term's names (consistent and injective)"""
+    if isinstance(p, str):
+        if p in vmap: return O.canon(vmap[p]) == O.canon(t)
+        vmap[p] = t; return True
+    if not isinstance(t, tuple) or p[0] != t[0] or len(p) != len(t): return False
+    for kind, a, b in zip(O.SIG[p[0]], p[1:], t[1:]):
+        if kind == 'c':
+            if not _pmatch(a, b, vmap, smap): return False
+        elif kind == 'p':
+            if a != b: return False
+        else:
+            if a in smap:
+                if smap[a] != b: return False
+            elif b in smap.values(): return False
+            else: smap[a] = b
+    return True
+def _inst(p, vmap, smap):
+    if isinstance(p, str): return vmap[p]
+    return tuple([p[0]] + [(_inst(a, vmap, smap) if kind == 'c' else (a if kind == 'p' else smap.setdefault(a, ('rule-fresh', a)))) for kind, a in zip(O.SIG[p[0]], p[1:])])
+def rule_instance(lhs, rhs, l, r):
+    """is l = r an instance of the rewrite rule lhs => rhs (right sides without the substitution form)? lhs is matched against l as written (the leaf is
+    stated over the instantiated patterns), which binds the variables and names the pattern's slots; slots that only the right side writes are new names"""
+    vmap, smap = {}, {}
+    if not _pmatch(lhs, l, vmap, smap): return False
+    try: ri = _inst(rhs, vmap, smap)
+    except KeyError: return False
+    # alpha-equality up to the choice of the new names
+    cons = []
+    if not _walk(O.canon(ri), O.canon(r), 'i', 'const', cons): return False
+    img = {}
+    for (ta, a), (tb, b) in cons:
+        if isinstance(a, tuple) and a and a[0] == 'rule-fresh':
+            if img.setdefault(a, b) != b: return False
+        elif a != b: return False
+    return len(set(img.values())) == len(img) and not (set(img.values()) & set(O.free_names(l)))
+
 def check_proof(dump, query, asserted):
     """dump: {'root', 'nodes'}; query: (s, t) oracle terms over labels; asserted: [(s, t, just)] -> list of (kind, detail)"""
     out = []
@@ -125,7 +163,10 @@ def check_proof(dump, query, asserted):
         elif rule == 'explicit' and not prem:
             if asserted is None: continue
             for s, t, just in asserted:
-                if just == n.get('just') and solve([(s, 'u', l, None), (t, 'u', r, None)], [('u', s), ('u', t)]): ok = True; break
+                if just != n.get('just'): continue
+                if isinstance(s, tuple) and s and s[0] == '__rule__':      # a rewrite rule (lhs pattern, rhs pattern): the leaf must be one of its instances
+                    if rule_instance(s[1], t, l, r): ok = True; break
+                elif solve([(s, 'u', l, None), (t, 'u', r, None)], [('u', s), ('u', t)]): ok = True; break
             if not ok: out.append(('proof_bad_leaf', {'node': k, 'l': l, 'r': r, 'just': n.get('just')})); continue
         if not ok: out.append(('proof_bad_step', {'node': k, 'rule': rule, 'l': l, 'r': r, 'premises': [(p['l'], p['r']) for p in prem]}))
     root = nodes[dump['root']]
@@ -150,3 +191,30 @@ def shape_summary(dump):
     except Exception as e:
         issues = ['proof_checker_error']; rooteq = str(e)[:100]
     return {'bad_steps': len(issues), 'leaves': sorted(set(str(n.get('just')) for n in dump['nodes'] if n['rule'] == 'explicit')), 'root': rooteq}
+
+def self_test(dump, query, asserted):
+    """sensitivity of the checker on one accepted proof: every mutant below changes what is claimed, so a checker that still accepts it would be
+    vacuous. -> (mutants generated, mutants rejected, descriptions of accepted mutants)"""
+    import copy
+    if check_proof(dump, query, asserted): return 0, 0, []
+    gen = rej = 0; accepted = []
+    def run(d, q, a, what):
+        nonlocal gen, rej
+        gen += 1
+        try: bad = bool(check_proof(d, q, a))
+        except Exception: bad = True
+        if bad: rej += 1
+        else: accepted.append(what)
+    root = dump['nodes'][dump['root']]
+    if O.canon(to_term(root['l'])) != O.canon(to_term(root['r'])):
+        run(dump, (query[1], query[0]), asserted, 'query flipped')                                  # the proof no longer proves what was asked (unless the flipped equation is the same up to renaming)
+    for k, n in enumerate(dump['nodes']):
+        if n['rule'] == 'explicit':
+            d = copy.deepcopy(dump); d['nodes'][k]['just'] = 'no such justification'; run(d, query, asserted, 'leaf %d with another justification' % k)
+            d = copy.deepcopy(dump); d['nodes'][k]['l'], d['nodes'][k]['r'] = d['nodes'][k]['r'], d['nodes'][k]['l']
+            if O.canon(to_term(n['l'])) != O.canon(to_term(n['r'])): run(d, query, asserted, 'leaf %d flipped' % k)
+        if n['rule'] == 'trans' and n['prem'][0] != n['prem'][1]:
+            d = copy.deepcopy(dump); d['nodes'][k]['prem'] = list(reversed(n['prem'])); run(d, query, asserted, 'transitivity %d with its premises exchanged' % k)
+        if n['rule'] in ('sym', 'trans', 'cong') and O.canon(to_term(n['l'])) != O.canon(to_term(n['r'])):
+            d = copy.deepcopy(dump); d['nodes'][k]['rule'] = 'refl'; d['nodes'][k]['prem'] = []; run(d, query, asserted, 'step %d relabelled reflexivity' % k)
+    return gen, rej, accepted
